@@ -38,9 +38,13 @@ def located_error(
     if isinstance(original_error, GraphQLError) and original_error.path is not None:
         return original_error
     try:
-        message = str(original_error.message)  # type: ignore
-    except AttributeError:
-        message = str(original_error)
+        try:
+            message = str(original_error.message)  # type: ignore
+        except AttributeError:
+            message = str(original_error)
+    except Exception:  # noqa: BLE001
+        # The error cannot even be converted to a string.
+        message = f"Unexpected error of type {original_error.__class__.__name__}."
     try:
         source = original_error.source  # type: ignore
         if not is_source(source):
